@@ -860,6 +860,14 @@ def plan(tier, seed):
                     'mask A with a shift, the all-ones mask, babinet, focus_fixed_sampling (all on one 8x8 focal grid that covers the whole band), wf.data replaced by another array of the same shape, wf.data scaled in place, in-place pad2d and crop; '
                     'states are never merged; after every propagation event the result must equal the same call on a FRESH Wavefront built from the object\'s current data / dx / wavelength and the object\'s data must be untouched; '
                     'in every state the all-ones full-band mask must return the current field'),
+        ScopeUnit('shift_forms', sf_cases, run_shift_forms,
+                  'argument-form alphabet of the shift: pupils (3,3),(2,4),(5,3) x outputs (4,4),(3,5) x 4 physical shifts (integral and fractional, one axis zero) x {mdft, czt} x '
+                  '{focus_fixed_sampling, unfocus_fixed_sampling, to_fpm_and_back, Wavefront.focus_fixed_sampling, Wavefront.to_fpm_and_back}: the shift given as tuple of numpy scalars / list / float64 ndarray / '
+                  'int64 ndarray / int tuple must give the field of the float tuple, must not be modified, and the same object passed to a second call must give the same field again '
+                  '(non-zero shifts only: an all-zero list / ndarray is not hashable by the mdft cache key, documented form is a tuple)', reset=rs),
+        ScopeUnit('near_square', ns_cases, run_near_square,
+                  f'aspect-ratio threshold alphabet, NOT closed over the data dimension: array shapes {sorted(ns_shapes)} (sides differing by 2.5% ... 0.05%) x 2 (output samples, band, units, shift) x {{mdft, czt}} x both directions: '
+                  'a seeded dense 3x4 window embedded (by the harness) at the origin of the large array gives the field of the 3x4 array; impulses at far corners / edges (three for sides <= 500, one above) transposed with swapped arguments give the transposed field', reset=rs, chunk=1),
         HistoryUnit('shift_history', hs_inits, hs_fresh, hs_events, hs_apply, hs_check, he_canon, hs_depth,
                     f'relations (ii) (iii) with WARM executors: one seeded dense 3x4 physical field embedded (by the harness) in arrays {hs_shapes}; outputs 4 (int form, band 7.3) and (4,5) (band 12), two unit sets; '
                     f'every history of length <= {hs_depth} over events (array, method in {{mdft, czt}}, direction, shift in {hs_shifts} output samples, problem transposed with swapped samples / shift or not) '
@@ -876,12 +884,4 @@ def plan(tier, seed):
                     f'over {MB_EVENTS} -- Wavefront.babinet (no lyot / lyot / return_more / from the second Wavefront), Wavefront.to_fpm_and_back, the function to_fpm_and_back, babinet_backprop (not judged, shares state), all handed the SAME '
                     'array objects; the mask array refilled in place / scaled in place / complemented in place / replaced by a new array, the Lyot array and the field array refilled in place; states never merged. After every propagation event and, '
                     'with babinet(lyot) and to_fpm_and_back, in EVERY state: babinet(lyot, M) = lyot*(f - T(1-M) f) = lyot*T(M) f and T(M) f + T(1-M) f = f for the CURRENT contents (T = the plain function on fresh copies), arguments untouched'),
-        ScopeUnit('shift_forms', sf_cases, run_shift_forms,
-                  'argument-form alphabet of the shift: pupils (3,3),(2,4),(5,3) x outputs (4,4),(3,5) x 4 physical shifts (integral and fractional, one axis zero) x {mdft, czt} x '
-                  '{focus_fixed_sampling, unfocus_fixed_sampling, to_fpm_and_back, Wavefront.focus_fixed_sampling, Wavefront.to_fpm_and_back}: the shift given as tuple of numpy scalars / list / float64 ndarray / '
-                  'int64 ndarray / int tuple must give the field of the float tuple, must not be modified, and the same object passed to a second call must give the same field again '
-                  '(non-zero shifts only: an all-zero list / ndarray is not hashable by the mdft cache key, documented form is a tuple)', reset=rs),
-        ScopeUnit('near_square', ns_cases, run_near_square,
-                  f'aspect-ratio threshold alphabet, NOT closed over the data dimension: array shapes {sorted(ns_shapes)} (sides differing by 2.5% ... 0.05%) x 2 (output samples, band, units, shift) x {{mdft, czt}} x both directions: '
-                  'a seeded dense 3x4 window embedded (by the harness) at the origin of the large array gives the field of the 3x4 array; impulses at far corners / edges (three for sides <= 500, one above) transposed with swapped arguments give the transposed field', reset=rs, chunk=1),
     ]
